@@ -28,5 +28,7 @@ def run(prog, chk, tier):
     from rules import adapter
 
     adapter.mac_definition_rules(prog, chk, "C03")
+    # stored length of an encrypted component = its content zero-padded to the next block boundary (nothing for whole blocks)
+    adapter.pad_rule(prog, chk, "C03")
     stackrt.guarded(chk, "C03.stack-bf3", stackfile.bf3_file_rules, prog, chk, "C03", tier, want=("layout",))
     chk.assume("AES-128 block function itself is FIPS-197 (decided by C16's table and round rules)")
